@@ -84,6 +84,8 @@ type Session struct {
 	viols []sim.Violation
 	reach []string
 
+	countSweep bool // C10: runCodec replaces each count field of one object instead of checking its round trip
+
 	flipped, cutDone, stalled bool
 	tampered                  [2]atomic.Bool // a fault changed / removed bytes in that direction
 	capped                    atomic.Bool    // the step budget ran out: the teardown reset is the scheduler's doing
